@@ -372,7 +372,7 @@ def build(spec):
     """(matrix case, constructor name, options, np.random seed) -> MultilevelSolver"""
     import pyamg
     M = spec['M']
-    A, B = M['A'], M['B']
+    A, B = M['A'].copy(), M['B']      # a fresh matrix object: pyamg caches spectral-radius estimates on the caller's matrix
     if spec.get('decoy'):
         decoy_setup(spec)
     kw = {k: _tup(v) for k, v in spec['kw'].items()}
@@ -631,7 +631,7 @@ def judge(ctx, spec, ml, En, cycles, rng, deep_checks=True):
                           f'energy norm of some error: ||A^1/2 E A^-1/2||_2 = {nrm:.12g} > 1 + {TOL}'
                           + (f'; for the stored error e: energy {detail.get("energy_before"):.6g} -> {detail.get("energy_after"):.6g}, '
                              f'exact check e\'Ae\' <= eAe: {detail.get("lean_exact_energy_le")}' if top is not None else ''),
-                          case, detail=detail)
+                          case, fkey=spec.get('_fkey'), detail=detail)
             continue
         if not deep_checks:
             continue
@@ -647,7 +647,7 @@ def judge(ctx, spec, ml, En, cycles, rng, deep_checks=True):
         if not En.en(e1) <= En.en(e0) * (1 + 2 * TOL) + 1e-20:
             found = True
             ctx.violation(f'{_cfg(spec, ml, n)}: the {cycle}-cycle increases the energy of the error for a random (b, x0): {En.en(e0):.12g} -> {En.en(e1):.12g}',
-                          dict(case, b=b2, x0=x0, mode='pair'))
+                          dict(case, b=b2, x0=x0, mode='pair'), fkey=spec.get('_fkey'))
         else:
             # special initial guesses: the zero vector (the default of solve) and the exact solution
             xz = one_cycle(ml, b2, np.zeros(n, dtype=dt), cycle, cpl)
@@ -655,7 +655,7 @@ def judge(ctx, spec, ml, En, cycles, rng, deep_checks=True):
             if not En.en(xs2 - xz) <= En.en(xs2) * (1 + 2 * TOL) + 1e-20:
                 found = True
                 ctx.violation(f'{_cfg(spec, ml, n)}: the {cycle}-cycle from the zero initial guess increases the energy of the error: {En.en(xs2):.12g} -> {En.en(xs2 - xz):.12g}',
-                              dict(case, b=b2, x0=np.zeros(n, dtype=dt), mode='pair'))
+                              dict(case, b=b2, x0=np.zeros(n, dtype=dt), mode='pair'), fkey=spec.get('_fkey'))
             elif not En.en(xs2 - xe) <= 1e-18 * max(En.en(xs2), 1e-300) * max(1.0, En.w.max() / En.w.min()):
                 found = True
                 ctx.violation(f'{_cfg(spec, ml, n)}: the {cycle}-cycle started at the exact solution leaves an error of energy {En.en(xs2 - xe):.6g} (solution energy {En.en(xs2):.6g})',
@@ -683,7 +683,7 @@ def solve_monotone(ctx, spec, ml, En, cycle, rng):
     for k in range(len(en) - 1):
         if not en[k + 1] <= en[k] * (1 + 2 * TOL) + floor:
             ctx.violation(f'{_cfg(spec, ml, n)}: stand-alone solve ({cycle}-cycles): the error energy grows in cycle {k + 1}: {en[k]:.12g} -> {en[k + 1]:.12g}',
-                          dict(spec_case(spec), cycle=cycle, b=b, x0=x0, mode='solve', energies=en))
+                          dict(spec_case(spec), cycle=cycle, b=b, x0=x0, mode='solve', energies=en), fkey=spec.get('_fkey'))
             return True
     if len(its) and not np.allclose(np.ravel(x), its[-1], rtol=0, atol=0):
         pass    # returned vector vs last callback iterate is C01's business
@@ -719,6 +719,27 @@ def schwarz_fkey(spec, ex, facts):
     names = str((spec['kw'].get('presmoother'), spec['kw'].get('postsmoother')))
     if 'maxmn==shape(b,0)' in str(ex) and 'schwarz' in names and facts.get('empty_rows'):
         return 'schwarz-empty-subdomain'     # repaired in /repo (e7d3447): not a known finding, only a label for the message
+    return None
+
+
+def stale_block_rho_fkey(spec):
+    """known-finding key: a block_jacobi smoother with explicit blocksize b is set up on level 0 after a block_jacobi with a
+    different explicit blocksize was set up on the same level matrix (construction or an earlier change_smoothers call):
+    rho_block_D_inv_A reuses the estimate cached for the other block size"""
+    def lvl0_bs(sm):
+        sm = _tup(sm)
+        if isinstance(sm, list):
+            sm = sm[0] if sm else None
+        if isinstance(sm, tuple) and sm[0] == 'block_jacobi' and sm[1].get('withrho', True):
+            return sm[1].get('blocksize')
+        return None
+    seq = [spec['kw'].get('presmoother'), spec['kw'].get('postsmoother')]
+    for h in spec.get('history') or []:
+        seq += [h[0], h[1]]
+    sizes = [lvl0_bs(sm) for sm in seq]
+    for k in (len(sizes) - 2, len(sizes) - 1):
+        if sizes[k] and any(b and b != sizes[k] for b in sizes[:k]):
+            return 'block-jacobi-stale-rho'
     return None
 
 
@@ -856,6 +877,14 @@ def run_spec(ctx, spec, En, rng, cycles=None, report_ctor_error=True):
     ctx.feat('complex' if En.cplx else 'real')
     ctx.feat('bsr' if M['A'].format == 'bsr' else 'csr')
     hyp = hypotheses(ml, spec)
+    fk = stale_block_rho_fkey(spec)
+    stale = [h for h in hyp if 'block_jacobi: omega_used' in h]
+    if fk and stale:
+        # the finding itself: under-damped block Jacobi from a stale estimate; everything that follows from it carries the key
+        spec = dict(spec, _fkey=fk)
+        hyp = [h for h in hyp if h not in stale]
+        ctx.feat('stale_block_rho')
+        ctx.violation(f'{_cfg(spec, ml, En.n)}: {stale[0]} (estimate cached for another block size)', dict(spec_case(spec), mode='stale-rho'), fkey=fk)
     if cycles is None:
         cycles = [('V', 1), ('W', 1), ('F', int(rng.choice([1, 1, 2])))]
     for cyc, cpl in cycles:
@@ -1172,6 +1201,7 @@ def _lvl0(sm, below):
 def core_histories(bs):
     J = ('jacobi', {'omega': 4.0 / 3.0})
     BJ = ('block_jacobi', {'omega': 4.0 / 3.0, 'blocksize': bs})
+    BJ2 = ('block_jacobi', {'omega': 4.0 / 3.0, 'blocksize': 2 if bs != 2 else 3})
     BG = ('block_gauss_seidel', {'sweep': 'symmetric', 'blocksize': bs})
     R = ('richardson', {'omega': 4.0 / 3.0})
     C = ('chebyshev', {'degree': 3})
@@ -1188,6 +1218,7 @@ def core_histories(bs):
         ((J, J), [(R, R), (C, C)]),
         ((S, S), [(G, G)]),
         ((G, G), [(S, S), (_lvl0(BJ, J), _lvl0(BJ, J)), (J, J)]),
+        ((_lvl0(BJ, J), _lvl0(BJ, J)), [(_lvl0(BJ2, J), _lvl0(BJ2, J))]),
     ]
 
 
